@@ -302,8 +302,11 @@ def main(argv=None):
         "wall_s": round(wall, 2),
         "violations": len(vio_lines),
     }
-    os.makedirs(os.path.join(HERE, "evidence"), exist_ok=True)
-    with open(os.path.join(HERE, "evidence", f"{prop}.json"), "w") as f:
+    # evidence of runs against a scratch copy (mutation / seeded-change experiments) must not replace the evidence
+    # of the real tree
+    evdir = "evidence" if os.path.realpath(repo) == "/repo" else os.path.join("replays", "scratch-evidence")
+    os.makedirs(os.path.join(HERE, evdir), exist_ok=True)
+    with open(os.path.join(HERE, evdir, f"{prop}.json"), "w") as f:
         json.dump(ev, f, indent=1, default=str)
 
     if args.v or vio_lines or undecided_names or errors:
